@@ -9,6 +9,8 @@ for d in /verif/seeded/*/; do
   n=$(basename "$d"); [ -f "$d/patch.diff" ] || continue
   if [ -n "$filter" ] && [[ "$n" != *$filter* ]]; then continue; fi
   p=${n%%-*}
+  # a change may be attributed to the check of another property (file "check" in its directory)
+  [ -f "$d/check" ] && p=$(cat "$d/check")
   r=$(tools/try_patch.sh "$d/patch.diff" "$p" 2>&1 | tail -1)
   case "$r" in
     *"exit=1"*) res="CAUGHT $(echo "$r" | sed 's/.*signature: //' | cut -c1-90)";;
